@@ -225,3 +225,27 @@ def gen_case(rng, cfg, cid):
     if cfg.preds and rng.random() < 0.3:
         case['pred_kw'] = True          # two-argument predicates are called with their last argument by keyword
     return case
+
+
+def apply_or_template(rng, cfg, case):
+    """Template: a disjunction that binds a NON-selected variable as an EARLIER (or later) conjunct, another conjunct
+    constraining that variable: several outputs of the disjunction agree on the selected variables, only some pass."""
+    ids = [v[0] for v in case['vars']]
+    if len(ids) < 2:
+        return case
+    x, z = rng.sample(ids, 2)
+    g = CondGen(rng, cfg, ids)
+
+    def join(f1, f2):
+        return ('cmp', rng.choice(('eq', 'ne', 'le', 'gt')), ('attr', f1, ('var', x)), ('attr', f2, ('var', z)))
+    g.var_ids = [x]
+    ax = g.atom()
+    g.var_ids = [z]
+    az = g.atom()
+    disj = ('or', join('a', 'a'), rng.choice([join('b', 'a'), join('a', 'b'), ax]))
+    case['cond'] = [rng.choice([('and', disj, az), ('and', az, disj)])] if rng.random() < 0.5 else \
+        ([disj, az] if rng.random() < 0.7 else [az, disj])
+    case['sel'] = [('var', x)] if rng.random() < 0.7 else [('var', v) for v in ids if v != z]
+    case['entity'] = len(case['sel']) == 1 and rng.random() < 0.5
+    return case
+
